@@ -36,7 +36,7 @@ fn strat(tier: Tier) -> BoxedStrategy<Case> {
   let max = tier.pick(4096usize, 65536usize);
   (
     (bytes(max), epoch(), threshold(tier, 1), any::<u16>()),
-    vec(prop_oneof![2 => Just(None), 1 => Just(Some(Hx(vec![]))), 4 => bytes(600).prop_map(Some)], 1..6),
+    vec(prop_oneof![200 => Just(None), 100 => Just(Some(Hx(vec![]))), 400 => bytes(600).prop_map(Some), 3 => (65400usize..70000, any::<u64>()).prop_map(|(l, s)| Some(Hx(expand(s, l))))], 1..6),
     (prop_oneof![3 => Just(0u8), 2 => Just(1u8), 1 => Just(2u8)], uniform_bytes(32, 32), any::<u8>(), any::<bool>()),
     (sel_spec(), sel_spec(), prop::bool::weighted(0.25)),
   )
@@ -127,6 +127,7 @@ fn oracle(c: &Case, st: &mut Stats) -> Result<(), String> {
     st.class(match a {
       None => "aux=absent",
       Some(x) if x.is_empty() => "aux=empty",
+      Some(x) if x.len() + c.m.len() + 8 >= 65536 => "aux>=64KiB",
       Some(x) if x.len() + c.m.len() + 8 > 166 => "aux=multi-block",
       Some(_) => "aux=short",
     });
